@@ -165,7 +165,9 @@ def _hy_child(conn, repo_src: str) -> None:
         msg = conn.recv()
         if msg is None:
             return
-        pr, tr = msg
+        pr, tr = msg[:2]
+        if len(msg) > 2 and msg[2]:
+            tr = int(tr)   # a whole-number reduced temperature written as an integer
         try:
             conn.send(("ok", float(gas.z_factor_hallyarbrough(pr, tr))))
         except Exception as ex:  # noqa: BLE001
@@ -192,7 +194,7 @@ class Watchdog:
         self.conn = parent
 
     def call(self, pr: float, tr: float):
-        self.conn.send((float(pr), float(tr)))
+        self.conn.send((float(pr), float(tr), bool(float(tr).is_integer() and int(round(float(pr) * 1000)) % 2 == 0)))
         if self.conn.poll(self.timeout):
             try:
                 return self.conn.recv()
